@@ -20,6 +20,7 @@ const prelude = `(set-logic ALL)
 (define-fun wrapS ((x Int) (m Int)) Int (- (mod (+ x (div m 2)) m) (div m 2)))
 (define-fun godiv ((x Int) (y Int)) Int (ite (>= x 0) (ite (> y 0) (div x y) (- (div x (- y)))) (ite (> y 0) (- (div (- x) y)) (div (- x) (- y)))))
 (define-fun gomod ((x Int) (y Int)) Int (- x (* y (godiv x y))))
+(define-fun runeLen ((r Int)) Int (ite (< r 0) (- 1) (ite (< r 128) 1 (ite (< r 2048) 2 (ite (and (>= r 55296) (<= r 57343)) (- 1) (ite (< r 65536) 3 (ite (<= r 1114111) 4 (- 1))))))))
 (declare-fun blen (String) Int)
 (declare-fun runeCount (String) Int)
 (declare-fun tcomparable (Int) Bool)
